@@ -3,7 +3,7 @@ Proof over the cache protocol (Model/PipelineCache.v) and build_global_layout
 (Model/GlobalLayoutOrder.v); contract ties for both (hx_pipeline --mode proto / layout);
 direct oracle on the real pipelines (--mode hist: one Pipeline vs. cache-cleared vs. fresh)
 and on .avbc bytes across fresh processes (--mode det)."""
-import glob, json, os, re, shutil, tempfile
+import glob, hashlib, json, os, re, shutil, tempfile
 import vlib
 
 TRUSTED = [
@@ -163,6 +163,69 @@ def run_hist(ctx, exe, files, n, prof, stats):
     return hs
 
 
+def run_det_cli(ctx, root, stats, quick):
+    """the real `aelys-cli compile` on small projects whose aelys.toml has several [module.*] entries and
+    (when the probe cdylib builds) several bundled native modules: N runs, bytes must be identical"""
+    from props import c11 as c11mod
+    cli = c11mod.cli_build(ctx)
+    if not cli:
+        ctx.broken.append("cli: aelys-cli does not build from the current tree")
+        return
+    lib = c11mod.native_lib_build(ctx)
+    projects = [
+        ("manifest-1-entry", '[module.alpha]\nkind = "script"\n', [], "let x = 1\nx + 1\n"),
+        ("manifest-3-entries", '[module.alpha]\nkind = "script"\n[module.beta]\nkind = "script"\n[module.gamma]\ncapabilities = ["x", "y"]\n', [],
+         "let x = 1\nx + 1\n"),
+        ("manifest-4-entries-user-modules", '[module.um1]\nkind = "script"\n[module.um2]\nkind = "script"\n[module.zeta]\nchecksum = "00"\n[module.eta]\nrequired_version = ">=1.0.0"\n',
+         [], "needs um1\nneeds um2 as u\num1.f1(2) + u.f2(3)\n"),
+    ]
+    if lib:
+        projects += [
+            ("bundle-2-native", '[module.sentry]\nkind = "native"\n[module.sentry2]\nkind = "native"\n[build]\nbundle_native_modules = true\n',
+             ["libsentry.so", "libsentry2.so"], "needs sentry as s1\nneeds sentry2 as s2\ns1.touch() + s2.touch()\n"),
+            ("bundle-3-native", '[module.sentry]\nkind = "native"\ncapabilities = ["a"]\n[module.sentry2]\nkind = "native"\n[module.sentry3]\nkind = "native"\n'
+             '[build]\nbundle_native_modules = true\n', ["libsentry.so", "libsentry2.so", "libsentry3.so"],
+             "needs sentry as s1\nneeds sentry2 as s2\nneeds sentry3 as s3\ns1.touch() + s2.touch() + s3.touch()\n"),
+            ("bundle-1-native", '[module.sentry]\nkind = "native"\n[build]\nbundle_native_modules = true\n', ["libsentry.so"], "needs sentry\nsentry.touch()\n"),
+        ]
+    else:
+        ctx.notes.append("probe cdylib does not build: bundled native modules are not exercised by the determinism oracle")
+    runs = 8 if quick else 16
+    for name, toml, libs, src in projects:
+        d = os.path.join(root, "cli-" + name)
+        shutil.rmtree(d, ignore_errors=True)
+        os.makedirs(d)
+        open(os.path.join(d, "aelys.toml"), "w").write(toml)
+        open(os.path.join(d, "main.aelys"), "w").write(src)
+        open(os.path.join(d, "um1.aelys"), "w").write("pub fn f1(x) { return x + 1 }\n")
+        open(os.path.join(d, "um2.aelys"), "w").write("pub fn f2(x) { return x * 2 }\n")
+        for l in libs:
+            shutil.copy(lib, os.path.join(d, l))
+        for opt in (0, 2):
+            outs = []
+            for k in range(runs):
+                o = os.path.join(d, f"out{k}.avbc")
+                rc, out = vlib.sh([cli, "compile", os.path.join(d, "main.aelys"), "-o", o, f"-O{opt}"], timeout=120, cwd=d)
+                if rc != 0:
+                    outs.append(("ERR", out.strip().split("\n")[0][:80]))
+                else:
+                    b = open(o, "rb").read()
+                    outs.append(("OK", len(b), hashlib.sha1(b).hexdigest()[:16]))
+                    os.remove(o)
+            stats["cli_compiles"] = stats.get("cli_compiles", 0) + runs
+            distinct = sorted(set(outs), key=str)
+            if outs and outs[0][0] == "ERR":
+                ctx.broken.append(f"determinism/cli: project {name} no longer compiles: {outs[0][1]}")
+            elif len(distinct) > 1:
+                ctx.violation(f"determinism:cli-bytes-differ:{name}",
+                              f"`aelys-cli compile main.aelys -O{opt}` run {runs} times on project '{name}' wrote {len(distinct)} different files",
+                              {"project": name, "opt": opt, "aelys.toml": toml, "main.aelys": src, "native_libraries": libs,
+                               "outputs": [list(map(str, x)) for x in distinct[:6]]})
+            else:
+                stats.setdefault("cli_projects_identical", []).append(f"{name}@O{opt}")
+        shutil.rmtree(d, ignore_errors=True)
+
+
 def run(ctx):
     ctx.level = "proof"
     ctx.cov["trusted_base"] = TRUSTED
@@ -298,6 +361,13 @@ def run(ctx):
         ctx.cov["det_files_compiled_ok"] = nd_ok
         ctx.cov["det_files_rejected"] = nd_err
         shutil.rmtree(d, ignore_errors=True)
+    droot = os.path.join(vlib.CACHE, "c16-cli-%d" % os.getpid())
+    os.makedirs(droot, exist_ok=True)
+    try:
+        run_det_cli(ctx, droot, stats, quick)
+    finally:
+        shutil.rmtree(droot, ignore_errors=True)
+    total_eval += stats.get("cli_compiles", 0)
     total_eval += stats["requests"] * 4
     ctx.cov["evaluations"] = total_eval
     ctx.cov["distinct_nontrivial"] = len(stats["distinct"]) + len(distinct_proto) + len(distinct_layout) + len(distinct_det)
